@@ -9,16 +9,17 @@ PAIRS = [('socket.Socket.%s', 'async_socket.AsyncSocket.%s', m) for m in
           'handle_post_request')] + \
         [('server.Server.%s', 'async_server.AsyncServer.%s', m) for m in
          ('_trigger_event', 'send', 'send_packet', 'get_session', 'save_session',
-          '_service_task')] + \
+          '_service_task', '_handle_connect', 'disconnect')] + \
         [('socket.Socket.%s', 'async_socket.AsyncSocket.%s', '_websocket_handler.writer')]
 # steps whose two contract texts differ only in clauses about the value returned by the WebSocket
 # driver call (threaded drivers return [], asyncio drivers None) and in where the `upgrading` flag
 # is reset (threaded: handler and _upgrade_websocket; asyncio: _upgrade_websocket only) - neither is
 # an observable of the property; every other clause must be textually identical
 PAIRS_MODULO = [('socket.Socket.%s', 'async_socket.AsyncSocket.%s', m) for m in
-                ('_websocket_handler', '_upgrade_websocket', 'handle_get_request')]
+                ('_websocket_handler', '_upgrade_websocket', 'handle_get_request')] + \
+               [('server.Server.%s', 'async_server.AsyncServer.%s', 'handle_request')]
 RETURN_VALUE_CLAUSES = {'flag-reset', 'result-empty', 'handled-returns-empty-list',
-                        'result-packets-wf'}
+                        'result-packets-wf', 'body-is-one-chunk'}
 FUNCTIONS = [a % m for a, b, m in PAIRS + PAIRS_MODULO] + [b % m for a, b, m in PAIRS + PAIRS_MODULO]
 
 
@@ -51,18 +52,19 @@ def extra_checks(REG):
     return out
 
 
-LEVEL_TEXT = ('for 18 logical steps (poll, receive, check_ping_timeout, send, close, schedule_ping, '
+LEVEL_TEXT = ('for 21 logical steps (poll, receive, check_ping_timeout, send, close, schedule_ping, '
               '_send_ping, handle_post_request, _trigger_event, Server.send/send_packet/get_session/'
-              'save_session, _service_task, the WebSocket writer closure; and - modulo the clauses about the '
-              'WebSocket driver call\'s return value - _websocket_handler, _upgrade_websocket, '
-              'handle_get_request) the threaded and the asyncio implementation are each verified, path by path, '
+              'save_session, _service_task, _handle_connect, disconnect(sid), the WebSocket writer closure; and - '
+              'modulo the clauses about the value returned by the WebSocket driver call / the gateway body - '
+              '_websocket_handler, _upgrade_websocket, handle_get_request, handle_request) the threaded and the asyncio implementation are each verified, path by path, '
               'against one and the same contract text (checked structurally), whose postconditions fix the '
               'observables of the property: the event log, accepted / taken packets, flags, raised protocol '
               'errors')
 LEVEL_NOTE = ('equivalence over whole histories is the induction over steps (not mechanised); '
-              'handle_request, _handle_connect and disconnect are '
-              'under contract for the threaded server only, so C18 does not cover them; the asyncio close() '
+              'the asyncio disconnect(None) (concurrent close of all sessions) is outside the sequential model; '
+              'the asyncio handle_request is verified from the translated environ on (translate_request / '
+              'make_response are driver glue with a library contract); the asyncio close() '
               'does not put the None sentinel (representation difference hidden by the accepted/taken view)')
-NOT_DECIDED = ['AsyncServer.handle_request / _handle_connect / disconnect',
+NOT_DECIDED = ['AsyncServer.disconnect(None)',
                'detection of silent peers within the heartbeat bound on both servers (timing)']
 ASSUMPTIONS = [LEVEL_NOTE]
